@@ -3,7 +3,10 @@ package main
 import (
 	"context"
 	"fmt"
+	"runtime"
 	"strings"
+	"sync"
+	"sync/atomic"
 	"time"
 
 	"github.com/IBM/TSS/threshold"
@@ -41,6 +44,19 @@ func openDispSessionOf(session string, self uint16, configured, agreed []uint16,
 	membership := map[tss.UniversalID]tss.PartyID{}
 	for _, id := range configured {
 		membership[tss.UniversalID(id)] = tss.PartyID(id)
+	}
+	ds, err := openDispSessionWith(session, self, membership, agreed, permissive)
+	if ds != nil && session != "sign" {
+		ds.ids = configured
+	}
+	return ds, err
+}
+
+// openDispSessionWith: the same with an arbitrary node -> party map
+func openDispSessionWith(session string, self uint16, membership map[tss.UniversalID]tss.PartyID, agreed []uint16, permissive bool) (*dispSession, error) {
+	var configured []uint16
+	for id := range membership {
+		configured = append(configured, uint16(id))
 	}
 	rg := newSchemeRig(self, len(agreed)-1, membership, fixedSyncFactory(agreed), permissive)
 	rg.scheme.SetStoredData([]byte("stored"))
@@ -134,6 +150,7 @@ func frame(round uint8, class uint8, body []byte) []byte {
 
 func runDisp(r *prng.R, s *out.Sink, tier string) {
 	defer dispSearch(r.Fork(), s, tier)
+	defer dispConcurrentEquivocation(s, tier)
 	sessions := 150
 	if tier == "thorough" {
 		sessions = 3000
@@ -351,4 +368,106 @@ func dispSearch(r *prng.R, s *out.Sink, tier string) {
 			ds.close()
 		}
 	}
+}
+
+// dispConcurrentEquivocation: a corrupted signer (1) sends two different payloads for one round to honest party 2 at the
+// same moment, through two dispatcher goroutines (one per connection, say). One message at a time per reliable-broadcast
+// instance: party 2 takes one of them and halts at the other. The split is then completed with honest party 3 (which gets
+// payload B, party 2's acknowledgement of it, then A) and the hand-overs of the two honest parties are compared.
+func dispConcurrentEquivocation(s *out.Sink, tier string) {
+	trials := 200
+	if tier == "thorough" {
+		trials = 2000
+	}
+	rigLogger = slowRegisterLogger{}
+	defer func() { rigLogger = nopLogger{} }()
+	ids := []uint16{1, 2, 3}
+	A, B := frame(1, 1, []byte{0xA1}), frame(1, 1, []byte{0xB2})
+	digestOf := func(p []byte) string { return string(sha(p[1:])) }
+	for k := 0; k < trials; k++ {
+		P, err := openDispSessionOf("sign", 2, ids, ids, false)
+		if err != nil {
+			continue
+		}
+		Q, err := openDispSessionOf("sign", 3, ids, ids, false)
+		if err != nil {
+			P.close()
+			continue
+		}
+		s.N++
+		s.Count("concurrent-equivocation/trial")
+		var mu sync.Mutex
+		acked := map[uint16]map[string]bool{2: {}, 3: {}}
+		handed := map[uint16][]string{}
+		watch := func(ds *dispSession) {
+			ds.rg.mu.Lock()
+			ds.rg.onSend = func(m sentMsg) {
+				if m.msgType == uint8(tss.MsgTypeMPC) && len(m.data) > 3 && m.data[0] < 128 {
+					mu.Lock()
+					acked[ds.self][string(m.data[3:])] = true
+					mu.Unlock()
+				}
+			}
+			ds.rg.mu.Unlock()
+			ds.backend.mu.Lock()
+			ds.backend.onEvent = func(e backendEvent) {
+				if e.kind == "onmsg" {
+					mu.Lock()
+					handed[ds.self] = append(handed[ds.self], out.Hex(e.payload))
+					mu.Unlock()
+				}
+			}
+			ds.backend.mu.Unlock()
+		}
+		watch(P)
+		watch(Q)
+		give := func(ds *dispSession, src uint16, data []byte) {
+			safely(func() string {
+				ds.rg.scheme.HandleMessage(&tss.IncMessage{Data: data, Source: src, MsgType: uint8(tss.MsgTypeMPC), Topic: ds.topic})
+				return ""
+			})
+		}
+		var ready, goFlag int32
+		var wg sync.WaitGroup
+		for _, p := range [][]byte{A, B} {
+			p := p
+			wg.Add(1)
+			go func() {
+				defer wg.Done()
+				atomic.AddInt32(&ready, 1)
+				for atomic.LoadInt32(&goFlag) == 0 {
+				}
+				give(P, 1, p)
+			}()
+		}
+		for atomic.LoadInt32(&ready) < 2 {
+			runtime.Gosched()
+		}
+		atomic.StoreInt32(&goFlag, 1)
+		wg.Wait()
+		// (party 2 acknowledges both payloads in either case: a receiver that detects the conflict halts, but still
+		// acknowledges — Props/C02 agreement covers that. What must not happen is that it stays un-halted.) Complete the
+		// split with honest party 3 and compare what the two honest parties hand over.
+		ack := func(p []byte) []byte { return threshold.VerifNewRBCEncoding(digestOf(p), 1, 1) }
+		give(Q, 1, B)      // the corrupted signer shows B to party 3
+		give(Q, 2, ack(B)) // party 2's acknowledgement of B arrives: party 3 hands B over
+		give(Q, 1, A)      // now A as well: party 3 halts (and acknowledges A)
+		give(P, 3, ack(A)) // party 3's acknowledgement of A reaches party 2
+		mu.Lock()
+		hp, hq := append([]string(nil), handed[2]...), append([]string(nil), handed[3]...)
+		mu.Unlock()
+		if len(hp) > 0 && len(hq) > 0 && hp[0] != hq[0] {
+			desc := fmt.Sprintf("trial %d: signers 1,2,3; 1 sends payloads a1 and b2 (round 1) to party 2 through two goroutines at once; then to party 3: b2 from 1, 2's acknowledgement of b2, a1 from 1; to party 2: 3's acknowledgement of a1; handed over: party 2 %v, party 3 %v", k, hp, hq)
+			s.Violate("C02", fmt.Sprintf("two honest parties handed different payloads of sender 1, round 1 to their protocol instances (party 2: %v, party 3: %v): party 2, given two conflicting payloads at the same moment by two dispatcher goroutines, did not halt", hp, hq), desc)
+			P.close()
+			Q.close()
+			return
+		}
+		if len(hp) > 0 {
+			s.Count("concurrent-equivocation/party-2-handed-over")
+		}
+		P.close()
+		Q.close()
+	}
+	s.Distinct[fmt.Sprintf("concurrent equivocation %d trials", trials)] = struct{}{}
 }
